@@ -1,7 +1,7 @@
 """C12 - switch_ output follows only the selected, fresh branch (per selection-epoch standalone model)."""
 from __future__ import annotations
 import copy
-from .runner import Result, Violation
+from .runner import Result, Violation, scaled
 from .gen_core import ProgGen, UID, gen_script
 from .prog import Case, S
 from . import model as M
@@ -99,7 +99,7 @@ def gen_case12(rng, name, idx):
 
 
 def generate(rng, tier, seed):
-    n = 250 if tier == "quick" else 4000
+    n = scaled(250 if tier == "quick" else 4000)
     return [gen_case12(rng, f"c12_{seed}_{k}", k) for k in range(n)]
 
 
